@@ -6,10 +6,10 @@
    lexer is back in code mode at the end.  [<l>_tmpl indent docs] is the comment fragment of language
    l for the doc strings [docs]. *)
 From Coq Require Import List String Permutation.
-From TS Require Import Model.Str Model.Outcome Model.Unicode Model.Syntax Model.Attrs Model.Types Model.Parse.
+From TS Require Import Model.Str Model.Outcome Model.Unicode Model.Syntax Model.Attrs Model.Types Model.Parse Model.Rename.
 From TS Require Import Model.Lang.TypeScript Model.Lang.Kotlin Model.Lang.Swift Model.Lang.Scala Model.Lang.Go Model.Lang.Python.
 From TS Require Import Spec.Lexers Spec.C15Spec Spec.C15Render.
-From TS Require Proofs.C15 Proofs.C15_Render Proofs.C15_Kotlin Proofs.C15_Go Proofs.C15_Swift Proofs.C15_Python.
+From TS Require Proofs.C15 Proofs.C15_Render Proofs.C15_Kotlin Proofs.C15_Go Proofs.C15_Swift Proofs.C15_Python Proofs.C15_TypeScript.
 Import ListNotations.
 
 (* ---- front end: parse_comment_attrs delivers one string per doc attribute (which is what `/// s`,
@@ -245,3 +245,27 @@ Theorem C15_py_sites_perm : forall it,
   Permutation (map snd (c15_py_item_sites it)) (c15_item_generated it ++ c15_item_docs it).
 Proof. exact Proofs.C15_Python.c15_py_sites_perm. Qed.
 Print Assumptions C15_py_sites_perm.
+
+(* ======================= whole items WITHOUT the neutrality hypothesis =======================
+   [c15_item_plain l lg const_name it] (Spec/C15Render.v, decidable): the identifiers of the item (names,
+   generic parameters, keys, tag / content keys, the identifiers of its types, verbatim type overrides,
+   the printed name of a constant) contain no character that opens a comment or a literal of language l,
+   and what is printed between double quotes through {:?} contains no control character and no
+   U+2028/9.  [c15_mappings_plain]: the same for the target texts of type_mappings.  Under these the code
+   the printer writes around the comment fragments keeps the reference lexer in code mode (every
+   literal fragment of the templates, generics, printed types by induction over the type, {:?}-quoted
+   keys and wire names, decimal constants), so: *)
+
+(* ---- TypeScript, one item, any printer state: the printed text is contained iff all doc strings of the
+   item are safe_ts, and they are all reproduced, in source order ---- *)
+Theorem C15_ts_item : forall (uc : unicode) (cfg : ts_config),
+  c15_mappings_plain C15ts (ts_type_mappings cfg) = true ->
+  forall it st text st',
+  c15_item_plain C15ts TypeScript (fun n => str_to_uppercase uc (to_snake_case uc n)) it = true ->
+  ts_write_item uc cfg it st = Ok (text, st') ->
+  exists parts,
+    text = text_of (c15_file_pieces C15ts parts) /\
+    docs_of (c15_file_pieces C15ts parts) = c15_item_docs it /\
+    c15_contained C15ts LCode (mark (c15_file_pieces C15ts parts)) = forallb safe_ts (c15_item_docs it).
+Proof. exact Proofs.C15_TypeScript.C15_ts_item. Qed.
+Print Assumptions C15_ts_item.
